@@ -114,6 +114,7 @@ def run(binary, steps, env=None, settle=3.0, final_stop=True):
             return sum(1 for _, l in s.out if l.startswith("bestmove"))
 
     sent_quit = False
+    wedged = False
     for st in steps:
         if "send" in st:
             cmd = st["send"]
@@ -158,6 +159,10 @@ def run(binary, steps, env=None, settle=3.0, final_stop=True):
                     ev["show"] = uci.parse_show(lines) if any(l.startswith("Fen: ") for l in lines) else {"fl": [], "rows": [], "hl": [-1, -1, -1, -1], "rec": [], "files": ""}
             events.append(ev)
             pump()
+            if ev.get("ready") is False:
+                # the engine no longer answers isready: it is wedged or dead; nothing more can be learnt from this session
+                wedged = True
+                break
         elif "waitbest" in st:
             # wait until every accepted go so far has been answered
             t_end = time.time() + st["waitbest"]
@@ -183,7 +188,15 @@ def run(binary, steps, env=None, settle=3.0, final_stop=True):
             rc = s.wait_exit(6.0)
             pump()
             events.append({"ev": "exit", "rc": rc if rc is not None else -999, "clean": rc == 0, "hung": rc is None})
-    if not sent_quit:
+    if wedged:
+        try:
+            s.p.kill()
+        except Exception:
+            pass
+        s.wait_exit(3.0)
+        pump()
+        events.append({"ev": "exit", "rc": -998, "clean": False, "hung": True})
+    elif not sent_quit:
         # settle: stop whatever is running, give pending bestmoves time to arrive, then quit
         if final_stop and s.alive():
             s.send("stop")
